@@ -126,16 +126,16 @@ Qed.
 (* exponent-2 leaves as weighted dot products *)
 Definition leaf_w (q : quirks) (lf : @leaf R) (n : nat) : Rvec :=
   match lf with
-  | LTensor _ _ w _ => tw_vec n (t_weight w)
-  | LDiscr _ axes w p =>
+  | LTensor w _ => tw_vec n (t_weight w)
+  | LDiscr axes w p =>
       let tw := d_weight axes w p in
       if unif_weighted q axes tw p then tw_vec n tw
       else vmul (tw_vec n tw) (bdry_w (fun f => f) axes)
   end.
 Definition leaf_ok2 (lf : @leaf R) (n : nat) : Prop :=
   match lf with
-  | LTensor _ _ w p => p = PFin 2 /\ tw_ok n (t_weight w)
-  | LDiscr _ axes w p => p = PFin 2 /\ tw_ok n (d_weight axes w p) /\ Forall ax_ok axes /\ n = npoints axes
+  | LTensor w p => p = PFin 2 /\ tw_ok n (t_weight w)
+  | LDiscr axes w p => p = PFin 2 /\ tw_ok n (d_weight axes w p) /\ Forall ax_ok axes /\ n = npoints axes
   end.
 
 Lemma wdot_vmul_shift (u a W b : Rvec) : wdot u (vmul a W) b = wdot (vmul u W) a b.
@@ -153,7 +153,7 @@ Qed.
 
 Lemma leaf_w_ok q lf n : leaf_ok2 lf n -> Forall (fun c => 0 < c) (leaf_w q lf n) /\ length (leaf_w q lf n) = n.
 Proof.
-  destruct lf as [blas zd w p | blas axes w p]; cbn [leaf_ok2 leaf_w].
+  destruct lf as [w p | axes w p]; cbn [leaf_ok2 leaf_w].
   - intros [_ Hw]. split; [apply tw_vec_pos | apply tw_vec_length]; assumption.
   - intros (_ & Hw & Hax & Hn). destruct (unif_weighted q axes (d_weight axes w p) p).
     + split; [apply tw_vec_pos | apply tw_vec_length]; assumption.
@@ -166,7 +166,7 @@ Qed.
 Lemma leaf_inner_wdot q lf (a b : Rvec) : leaf_ok2 lf (length a) -> length b = length a ->
   leaf_inner q lf a b = Ok (wdot (leaf_w q lf (length a)) a b).
 Proof.
-  destruct lf as [blas zd w p | blas axes w p]; cbn [leaf_ok2 leaf_w leaf_inner].
+  destruct lf as [w p | axes w p]; cbn [leaf_ok2 leaf_w leaf_inner].
   - intros [-> Hw] Hl. unfold t_inner. cbn [is2]. rewrite t_inner_wdot by congruence. reflexivity.
   - intros (-> & Hw & Hax & Hn) Hl. destruct (unif_weighted q axes (d_weight axes w (PFin 2)) (PFin 2)).
     + unfold t_inner. cbn [is2]. rewrite t_inner_wdot by congruence. reflexivity.
@@ -391,7 +391,7 @@ Lemma pspace_inner_node q w c cs (xs ys : list (@elem R)) (v : Rvec) :
 Proof. intros E. cbn [sp_inner is2 negb]. rewrite E. destruct w; reflexivity. Qed.
 
 (* the recorded finding: exponent-2 product over exponent-1 components *)
-Definition l1leaf : @space R := SLeaf (LTensor true false LDefault (PFin 1)).
+Definition l1leaf : @space R := SLeaf (LTensor LDefault (PFin 1)).
 Lemma pspace_norm_refuted : exists q (s : @space R) (x y : @elem R),
   q_ps2_via_inner q = true /\
   (exists d, sp_dist q s x y = Ok d) /\ sp_norm q s (esub x y) = NotImpl.
@@ -402,7 +402,7 @@ Proof.
 Qed.
 
 Example hilbert_tree_example :
-  let lf := SLeaf (LTensor true false (LConst 2) (PFin 2)) in
+  let lf := SLeaf (LTensor (LConst 2) (PFin 2)) in
   let s := SProd (PWArr [1; 3]) (PFin 2) [lf; SProd (PWConst (/ 2)) (PFin 2) [lf]] in
   hshape s (ENode [ELeaf [1; 2]; ENode [ELeaf [0; 5; 1]]]).
 Proof.
